@@ -94,6 +94,20 @@ Fixpoint hals_loop (tol : F) (fuel : nat) (first : bool) (err0 : F) (V : list (l
     if fltb Op (snd st) (fmul Op tol err0') then fst st else hals_loop tol f false err0' (fst st)
   end.
 
+(* the same loop, also returning the stopping decisions it took: one pair (rec_error, tol * rec_error0) per executed
+   pass (Proofs: snd (hals_trace ...) = hals_loop ...).  Used by the correspondence to decide whether the decisions
+   were numerically clear-cut. *)
+Fixpoint hals_trace (tol : F) (fuel : nat) (first : bool) (err0 : F) (V : list (list F)) : list (F * F) * list (list F) :=
+  match fuel with
+  | O => ([], V)
+  | S f =>
+    let st := hals_pass_e V in
+    let err0' := if first then snd st else err0 in
+    let d := (snd st, fmul Op tol err0') in
+    if fltb Op (snd st) (fmul Op tol err0') then ([d], fst st)
+    else let r := hals_trace tol f false err0' (fst st) in (d :: fst r, snd r)
+  end.
+
 (* V = clip(solve(UtU, UtM), 0); normalization = sum(UtU * V V^T);
    if normalization > 0: V = V * (sum(UtM*V) / normalization).   `sol` is the recorded answer of tl.solve.
    (Repaired code, /repo 5f3eaf7: when the clipped solution is identically zero the rescaling is skipped;
@@ -108,13 +122,17 @@ Definition zero_diag : bool := existsb (fun k => is0 (mget UtU k k)) (seq 0 (len
 
 End Hals.
 
+(* `raise ValueError("Column k of U is zero with nonzero condition")`: reached in the first pass *)
+Definition hals_rejects (UtM UtU : list (list F)) (n_iter_max : nat) (o : hopts) : bool :=
+  h_nz o && zero_diag UtM UtU && negb (Nat.eqb n_iter_max 0).
+
 (* hals_nnls(UtM, UtU, V, n_iter_max, tol, sparsity_coefficient, ridge_coefficient, nonzero_rows, exact, epsilon).
    V0 = None: cold start, `sol` = answer of tl.solve(UtU, UtM).  `exact` replaces (n_iter_max, tol) by
    (50000, 1e-16): the caller of the model passes the replaced pair `big` (no large nat literals here).
    Result: Err = raises ValueError, Ok V. *)
 Definition hals_nnls (UtM UtU : list (list F)) (n : nat) (V0 : option (list (list F))) (sol : list (list F))
            (n_iter_max : nat) (tol : F) (o : hopts) : res (list (list F)) :=
-  if h_nz o && zero_diag UtM UtU && negb (Nat.eqb n_iter_max 0) then Err
+  if hals_rejects UtM UtU n_iter_max o then Err
   else
     let V := match V0 with Some V => V | None => hals_init UtM UtU n sol end in
     Ok (hals_loop UtM UtU n o tol n_iter_max true (f0 Op) V).
@@ -141,17 +159,33 @@ Definition fista_prox (y : F) : F := if nonneg then (if fltb Op y eps then eps e
 Definition fista_new (xu : list (list F)) : list (list F) :=
   mmap fista_prox (mmap2 (fun a g => fsub Op a (fmul Op lr g)) xu (fista_grad xu)).
 
+(* norm = tl.sum(tl.abs(x - x_new)): the l1 norm of the step (repaired code, /repo f4b2876; before, the absolute
+   value of the SIGNED sum, which cancels) *)
+Definition fista_nrm (x xn : list (list F)) : F := msum (mmap (fabs Op) (mmap2 (fsub Op) x xn)).
 Fixpoint fista_loop (betas : list F) (first : bool) (norm0 : F) (x xu : list (list F)) : list (list F) :=
   match betas with
   | [] => x
   | beta :: rest =>
     let xn := fista_new xu in
     let xu' := mmap2 (fun a d => fadd Op a (fmul Op beta d)) xn (mmap2 (fsub Op) xn x) in
-    let nrm := fabs Op (msum (mmap2 (fsub Op) x xn)) in
+    let nrm := fista_nrm x xn in
     let norm0' := if first then nrm else norm0 in
     if fltb Op nrm (fmul Op tol norm0') then xn else fista_loop rest false norm0' xn xu'
   end.
 Definition fista (x0 : list (list F)) (betas : list F) : list (list F) := fista_loop betas true (f0 Op) x0 x0.
+(* the same loop, also returning its stopping decisions (norm, tol * norm_0), one per executed iteration *)
+Fixpoint fista_trace (betas : list F) (first : bool) (norm0 : F) (x xu : list (list F)) : list (F * F) * list (list F) :=
+  match betas with
+  | [] => ([], x)
+  | beta :: rest =>
+    let xn := fista_new xu in
+    let xu' := mmap2 (fun a d => fadd Op a (fmul Op beta d)) xn (mmap2 (fsub Op) xn x) in
+    let nrm := fista_nrm x xn in
+    let norm0' := if first then nrm else norm0 in
+    let d := (nrm, fmul Op tol norm0') in
+    if fltb Op nrm (fmul Op tol norm0') then ([d], xn)
+    else let r := fista_trace rest false norm0' xn xu' in (d :: fst r, snd r)
+  end.
 End Fista.
 
 (* ====================================================================================== *)
